@@ -55,7 +55,7 @@ def _scn(draw):
         cur = [f for f in files if f.startswith(child + "/")]
         dirs = [d for d in dirs if d == child or d.startswith(child + "/")]
     rounds = []
-    for ri in range(draw(st.sampled_from([1, 1, 2]))):
+    for ri in range(draw(st.sampled_from([1, 1, 2, 2, 3]))):
         k = draw(st.integers(1, min(5, len(cur))))
         srcs = draw(st.lists(st.sampled_from(cur), min_size=k, max_size=k, unique=True))
         newdir = draw(st.integers(0, 4)) == 0
@@ -115,6 +115,13 @@ def enumerated(tier):
             for fm2 in (["md5"], ["xxh64"], ["sha1", "md5"]):
                 rounds = [dict(two_steps[0]), dict(two_steps[1], formats=fm2)]
                 yield dict(base, rounds=rounds, plain_create_between=plain, spell=spell)
+    # there and back again, and then on to a third name (together with a file that is renamed for the first time)
+    for plain in (False, True):
+        for fm3 in (["md5"], ["xxh64"]):
+            yield dict(base, plain_create_between=plain, spell="abs", rounds=[
+                {"renames": [["a.mov", "a1.mov"], ["d/c.mov", "c1.mov"]], "new": [], "formats": ["md5"], "n": False, "newdir": False, "back": False},
+                {"renames": [["a1.mov", "a.mov"], ["c1.mov", "d/c.mov"]], "new": [], "formats": ["md5"], "n": False, "newdir": False, "back": True},
+                {"renames": [["a.mov", "d/a3.mov"], ["d/c.mov", "c3.mov"], ["b.mov", "b3.mov"]], "new": ["fresh3.mov"], "formats": fm3, "n": False, "newdir": False, "back": False}])
     for sf in (0, 1, 3):
         yield dict(base, rounds=[dict(two_steps[0], formats=["xxh64"], n=True)], plain_create_between=True, spell="abs", sf_generation=sf)
     # a nested child history: a file inside it is renamed to a name that, relative to the child, equals a path the parent records
